@@ -22,10 +22,13 @@ def _simp(e):
         return e
 
 
-def to_smt2(ob, reveal=False, witness=False):
+def to_smt2(ob, reveal=False, witness=False, hints=False):
     s = z3.Solver()
     for h in ob.hyps:
         s.add(_simp(h))
+    if hints:
+        for h in ob.meta.get('search_hints') or []:
+            s.add(_simp(h))
     if reveal:
         from .sv import reveal_dfc
         for eq in reveal_dfc(list(ob.hyps) + [ob.goal] + list(ob.witness.values())):
@@ -188,17 +191,25 @@ def discharge(obligations, tier='quick', seed=0, workers=None):
                 except Exception:       # noqa
                     pass
         with cf.ProcessPoolExecutor(max_workers=workers) as ex:
-            # counterexamples: re-run with witness constants
-            wit = [(n, to_smt2(byname[n], reveal=True, witness=True), P2_MS[tier], seed) for n in left if results[n].status == 'sat']
-            for name, status, model, secs, backend, reason in ex.map(_z3_task, wit, chunksize=1):
-                if status == 'sat':
-                    results[name].model = model
-                else:
-                    for sd in (1, 2, 3):
-                        _, st2, model2, _, _, _ = _z3_task((name, to_smt2(byname[name], reveal=True, witness=True), P2_MS[tier], seed + sd))
+            # counterexamples: re-run with witness constants; the contract's replay hints (small, representable values) first
+            for n in left:
+                if results[n].status != 'sat':
+                    continue
+                got = False
+                for use_hints in (True, False):
+                    if use_hints and not byname[n].meta.get('search_hints'):
+                        continue
+                    text = to_smt2(byname[n], reveal=True, witness=True, hints=use_hints)
+                    for sd in (0, 1, 2):
+                        _, st2, model2, _, _, _ = _z3_task((n, text, P2_MS[tier], seed + sd))
                         if st2 == 'sat':
-                            results[name].model = model2
+                            results[n].model = model2
+                            got = True
                             break
+                        if st2 == 'unsat':
+                            break
+                    if got:
+                        break
     return [results[ob.name] for ob in obligations]
 
 
